@@ -1,0 +1,367 @@
+//go:build verif
+
+// Contracts for lists and the numbering registry (properties C15 list part, C13 numbering part, C02),
+// read by /verif/engine (govc). Comments only: with or without the build tag this file adds no code to the package.
+package document
+
+// ---- the documented mapping from a list request to the level definition -----------------------------------------
+
+// numKnown(t): t is one of the seven documented list types.
+//@ spec numKnown(t ListType) bool = t == ListTypeBullet || t == ListTypeNumber || t == ListTypeDecimal || t == ListTypeLowerLetter || t == ListTypeUpperLetter || t == ListTypeLowerRoman || t == ListTypeUpperRoman
+// numFmtOf(t): the number format of the type (bullet; number and decimal are both decimal digits; the letter and roman formats).
+//@ spec numFmtOf(t ListType) string = ite(t == ListTypeBullet, "bullet", ite(t == ListTypeNumber || t == ListTypeDecimal, "decimal", ite(t == ListTypeLowerLetter, "lowerLetter", ite(t == ListTypeUpperLetter, "upperLetter", ite(t == ListTypeLowerRoman, "lowerRoman", "upperRoman")))))
+// numLvlText(t, s, i): the level text of level i: the bullet symbol for bullets, "%<i+1>." for numbered lists.
+//@ spec numLvlText(t ListType, s BulletType, i int) string = ite(t == ListTypeBullet, string(s), "%" + (itoa(i + 1) + "."))
+
+// numLevelOK(l, i, t, s, n): l is the definition of level i with start value n and, for a documented type, its format and text.
+//@ spec numLevelOK(l *Level, i int, t ListType, s BulletType, n int) bool = l != nil && l.ILevel == itoa(i) && l.Start != nil && l.Start.Val == itoa(n) && (numKnown(t) ==> l.NumFmt != nil && l.NumFmt.Val == numFmtOf(t) && l.LevelText != nil && l.LevelText.Val == numLvlText(t, s, i))
+// numAbsOK(a, t, s, n): a has exactly the nine levels 0-8 of the format, each defined as requested.
+//@ spec numAbsOK(a *AbstractNum, t ListType, s BulletType, n int) bool = a != nil && len(a.Levels) == 9 && (forall i int :: {a.Levels[i]} 0 <= i && i < 9 ==> numLevelOK(a.Levels[i], i, t, s, n))
+
+// ---- the registry invariant ----------------------------------------------------------------------------------
+
+// numIDIn(id, lo, hi): id is the decimal rendering of a number in [lo, hi).
+//@ spec numIDIn(id string, lo int, hi int) bool = atoiOK(id) && lo <= atoi(id) && atoi(id) < hi
+// every cached definition is the definition of the request it is cached for (key: type, symbol, level, start)
+//@ spec numAbsDefsOK(m *NumberingManager) bool = m.abstractNums != nil && (forall k abstractNumKey :: {has(m.abstractNums, k)} has(m.abstractNums, k) ==> numAbsOK(m.abstractNums[k], k.Type, k.BulletSymbol, k.StartNumber))
+// the id of every cached definition was handed out by the counter
+//@ spec numAbsIDsOK(m *NumberingManager) bool = forall k abstractNumKey :: {has(m.abstractNums, k)} has(m.abstractNums, k) ==> m.abstractNums[k] != nil && numIDIn(m.abstractNums[k].AbstractNumID, 0, m.nextAbstractNumID)
+// no two cached definitions share an id
+//@ spec numAbsInj(m *NumberingManager) bool = forall a abstractNumKey, b abstractNumKey :: {has(m.abstractNums, a), has(m.abstractNums, b)} has(m.abstractNums, a) && has(m.abstractNums, b) && a != b ==> m.abstractNums[a].AbstractNumID != m.abstractNums[b].AbstractNumID
+// numAbsNamed(m, v): some cached definition has the id v
+//@ spec numAbsNamed(m *NumberingManager, v string) bool = exists k abstractNumKey :: has(m.abstractNums, k) && m.abstractNums[k].AbstractNumID == v
+// every instance is registered under its own id, which was handed out by the counter
+//@ spec numInstOK(m *NumberingManager) bool = m.numInstances != nil && (forall id string :: {has(m.numInstances, id)} has(m.numInstances, id) ==> m.numInstances[id] != nil && m.numInstances[id].NumID == id && m.numInstances[id].AbstractNumID != nil && numIDIn(id, 1, m.nextNumID))
+// every instance names a cached definition
+//@ spec numInstNamed(m *NumberingManager) bool = forall id string :: {has(m.numInstances, id)} has(m.numInstances, id) ==> numAbsNamed(m, m.numInstances[id].AbstractNumID.Val)
+// (the counters start at 0 and 1 and only grow: instance id 0 means "no list" in the format and is never handed out)
+//@ spec numRegOK(m *NumberingManager) bool = m != nil && m.nextAbstractNumID >= 0 && m.nextNumID >= 1 && numAbsDefsOK(m) && numAbsIDsOK(m) && numAbsInj(m) && numInstOK(m) && numInstNamed(m)
+// numDocOK(d): the document has no registry yet or a well-formed one (what New, getNumberingManager and every list call establish)
+//@ spec numDocOK(d *Document) bool = d.numberingManager == nil || numRegOK(d.numberingManager)
+
+// The registry of a document is found or created: a document without one gets a fresh, empty registry whose counters
+// start at 0 (definitions) and 1 (instances); an existing registry is returned untouched.
+//@ func (*Document).getNumberingManager
+//@ props C15, C13
+//@ requires d != nil && numDocOK(d)
+//@ ensures result != nil && result == d.numberingManager && numRegOK(result)
+//@ ensures old(d.numberingManager) != nil ==> result == old(d.numberingManager) && unchangedHeap()
+//@ ensures old(d.numberingManager) == nil ==> fresh(result) && fresh(result.abstractNums) && fresh(result.numInstances) && result.nextAbstractNumID == 0 && result.nextNumID == 1 && (forall k abstractNumKey :: !has(result.abstractNums, k)) && (forall id string :: !has(result.numInstances, id))
+//@ ensures unchangedExcept("Document.numberingManager")
+
+// One level definition: fresh objects only, carrying the level index, the start value and, for a documented list type,
+// the number format and the level text (bullet symbol) of the request.
+//@ func (*Document).createLevel
+//@ props C15
+//@ requires config != nil
+//@ modifies nothing
+//@ ensures fresh(result) && numLevelOK(result, levelIndex, config.Type, config.BulletSymbol, config.StartNumber)
+
+// One abstract definition: a fresh object with the given id and exactly the nine levels 0-8, each as requested.
+//@ func (*Document).createAbstractNum
+//@ props C15
+//@ requires config != nil
+//@ modifies nothing
+//@ ensures fresh(result) && result.AbstractNumID == abstractNumID && numAbsOK(result, config.Type, config.BulletSymbol, config.StartNumber)
+//@ loop 1
+//@   invariant 0 <= i && i <= 9 && unchangedHeap() && fresh(abstractNum) && abstractNum.AbstractNumID == abstractNumID
+//@   invariant len(abstractNum.Levels) == i && (cap(abstractNum.Levels) == 0 || freshArr(abstractNum.Levels))
+//@   invariant forall j int :: {abstractNum.Levels[j]} 0 <= j && j < i ==> numLevelOK(abstractNum.Levels[j], j, config.Type, config.BulletSymbol, config.StartNumber)
+//@   decreases 9 - i
+
+// The relationship of the numbering part: exactly one relationship (numbering type, target "numbering.xml") is appended
+// with an id that no relationship of the list carries and that is not "rId1" (given to the styles part on save);
+// every earlier relationship stays; unique ids stay unique.
+//@ func (*Document).addNumberingRelationship
+//@ props C02, C13
+//@ requires d != nil && d.documentRelationships != nil
+//@ ensures d.documentRelationships == old(d.documentRelationships)
+//@ ensures len(d.documentRelationships.Relationships) == old(len(d.documentRelationships.Relationships)) + 1
+//@ ensures d.documentRelationships.Relationships[old(len(d.documentRelationships.Relationships))].Type == "http://schemas.openxmlformats.org/officeDocument/2006/relationships/numbering" && d.documentRelationships.Relationships[old(len(d.documentRelationships.Relationships))].Target == "numbering.xml"
+//@ ensures d.documentRelationships.Relationships[old(len(d.documentRelationships.Relationships))].ID != "rId1"
+//@ ensures forall j int :: 0 <= j && j < old(len(d.documentRelationships.Relationships)) ==> old(d.documentRelationships.Relationships[j].ID) != d.documentRelationships.Relationships[old(len(d.documentRelationships.Relationships))].ID
+//@ ensures forall j int :: 0 <= j && j < old(len(d.documentRelationships.Relationships)) ==> d.documentRelationships.Relationships[j] == old(d.documentRelationships.Relationships[j])
+//@ ensures old(relIDsUnique(d.documentRelationships.Relationships)) ==> relIDsUnique(d.documentRelationships.Relationships)
+//@ ensures unchangedExcept("Relationships.Relationships", "Relationship.*")
+
+// ---- the numbering part is the marshalled registry -----------------------------------------------------------------
+
+// numAbsListed(xs, m): xs lists every cached definition of the registry, each once, and nothing else: every definition
+// occurs, no entry occurs twice, and there are exactly as many entries as cached definitions (so, by counting, every entry
+// is a cached definition). The order is the arbitrary iteration order of the map.
+//@ spec numAbsListed(xs []*AbstractNum, m *NumberingManager) bool = len(xs) == len(m.abstractNums) && (forall k abstractNumKey :: {has(m.abstractNums, k)} has(m.abstractNums, k) ==> exists i int :: 0 <= i && i < len(xs) && xs[i] == m.abstractNums[k]) && (forall i int, j int :: 0 <= i && i < j && j < len(xs) ==> xs[i] != xs[j])
+// numInstListed(xs, m): xs lists every instance of the registry and nothing else, each once.
+//@ spec numInstListed(xs []*NumInstance, m *NumberingManager) bool = len(xs) == len(m.numInstances) && (forall id string :: {has(m.numInstances, id)} has(m.numInstances, id) ==> exists i int :: 0 <= i && i < len(xs) && xs[i] == m.numInstances[id]) && (forall i int :: {xs[i]} 0 <= i && i < len(xs) ==> has(m.numInstances, xs[i].NumID) && xs[i] == m.numInstances[xs[i].NumID]) && (forall i int, j int :: 0 <= i && i < j && j < len(xs) ==> xs[i] != xs[j])
+
+// updateNumberingFile regenerates the numbering part from the registry: the value handed to the serialiser is a fresh
+// Numbering that lists every cached definition and every instance of the registry, each once, and nothing else; the part
+// "word/numbering.xml" ends with the bytes the serialiser returned for it; every other part stays; the registry itself is
+// not modified (a document without a registry gets an empty one). If the serialiser reports an error nothing is written.
+//@ func (*Document).updateNumberingFile
+//@ props C13, C15
+//@ requires d != nil && d.parts != nil
+//@ requires d.numberingManager != nil ==> d.numberingManager.nextAbstractNumID >= 0 && d.numberingManager.nextNumID >= 1
+//@ requires d.numberingManager != nil ==> numAbsDefsOK(d.numberingManager)
+//@ requires d.numberingManager != nil ==> numAbsIDsOK(d.numberingManager)
+//@ requires d.numberingManager != nil ==> numAbsInj(d.numberingManager)
+//@ requires d.numberingManager != nil ==> numInstOK(d.numberingManager)
+//@ requires d.numberingManager != nil ==> numInstNamed(d.numberingManager)
+//@ wf Numbering.AbstractNums, Numbering.NumberingInstances
+//@ ensures d.numberingManager != nil && numRegOK(d.numberingManager) && d.parts == old(d.parts)
+//@ ensures old(d.numberingManager) != nil ==> d.numberingManager == old(d.numberingManager)
+//@ ensures old(d.numberingManager) == nil ==> fresh(d.numberingManager) && (forall k abstractNumKey :: !has(d.numberingManager.abstractNums, k)) && (forall id string :: !has(d.numberingManager.numInstances, id))
+//@ ensures marshalCount() == old(marshalCount()) || marshalCount() == old(marshalCount()) + 1
+//@ ensures marshalCount() == old(marshalCount()) ==> unchangedExcept("Document.numberingManager")
+//@ ensures marshalCount() == old(marshalCount()) + 1 ==> typeIs(marshalAt(old(marshalCount())), "*Numbering") && fresh(marshalAt(old(marshalCount())).(*Numbering)) && marshalAt(old(marshalCount())).(*Numbering).Xmlns == "http://schemas.openxmlformats.org/wordprocessingml/2006/main"
+//@ ensures marshalCount() == old(marshalCount()) + 1 ==> numAbsListed(marshalAt(old(marshalCount())).(*Numbering).AbstractNums, d.numberingManager)
+//@ ensures marshalCount() == old(marshalCount()) + 1 ==> numInstListed(marshalAt(old(marshalCount())).(*Numbering).NumberingInstances, d.numberingManager)
+//@ ensures marshalCount() == old(marshalCount()) + 1 ==> has(d.parts, "word/numbering.xml") && len(d.parts["word/numbering.xml"]) >= len(marshalOut(old(marshalCount()))) && (forall i int :: 0 <= i && i < len(marshalOut(old(marshalCount()))) ==> d.parts["word/numbering.xml"][len(d.parts["word/numbering.xml"]) - len(marshalOut(old(marshalCount()))) + i] == marshalOut(old(marshalCount()))[i])
+//@ ensures forall k string :: k != "word/numbering.xml" ==> has(d.parts, k) == old(has(d.parts, k)) && d.parts[k] == old(d.parts[k])
+//@ ensures unchangedExcept("Document.numberingManager", "map:string:[]byte")
+//@ loop 1
+//@   invariant unchangedExcept("Document.numberingManager") && manager != nil && manager == d.numberingManager && numRegOK(manager) && marshalCount() == old(marshalCount())
+//@   invariant fresh(numbering) && numbering.Xmlns == "http://schemas.openxmlformats.org/wordprocessingml/2006/main" && len(numbering.NumberingInstances) == 0
+//@   invariant cap(numbering.AbstractNums) == 0 || freshArr(numbering.AbstractNums)
+//@   invariant 0 <= seenCount() && len(numbering.AbstractNums) == seenCount()
+//@   invariant forall k abstractNumKey :: {seen(k)} seen(k) ==> has(manager.abstractNums, k) && 0 <= seenPos(k) && seenPos(k) < seenCount() && seenKey(seenPos(k)) == k
+//@   invariant forall j int :: {seenKey(j)} 0 <= j && j < seenCount() ==> seen(seenKey(j)) && seenPos(seenKey(j)) == j
+//@   invariant forall j int :: {seenKey(j)} {numbering.AbstractNums[j]} 0 <= j && j < seenCount() ==> numbering.AbstractNums[j] == manager.abstractNums[seenKey(j)]
+//@ loop 2
+//@   invariant unchangedExcept("Document.numberingManager") && manager != nil && manager == d.numberingManager && numRegOK(manager) && marshalCount() == old(marshalCount())
+//@   invariant fresh(numbering) && numbering.Xmlns == "http://schemas.openxmlformats.org/wordprocessingml/2006/main"
+//@   invariant numAbsListed(numbering.AbstractNums, manager) && (cap(numbering.AbstractNums) == 0 || freshArr(numbering.AbstractNums))
+//@   invariant cap(numbering.NumberingInstances) == 0 || freshArr(numbering.NumberingInstances)
+//@   invariant 0 <= seenCount() && len(numbering.NumberingInstances) == seenCount()
+//@   invariant forall id string :: {seen(id)} seen(id) ==> has(manager.numInstances, id) && 0 <= seenPos(id) && seenPos(id) < seenCount() && seenKey(seenPos(id)) == id
+//@   invariant forall j int :: {seenKey(j)} 0 <= j && j < seenCount() ==> seen(seenKey(j)) && seenPos(seenKey(j)) == j
+//@   invariant forall j int :: {seenKey(j)} {numbering.NumberingInstances[j]} 0 <= j && j < seenCount() ==> numbering.NumberingInstances[j] == manager.numInstances[seenKey(j)]
+
+// ---- the numbering part of a document that has none yet ------------------------------------------------------------
+
+// initializeNumbering gives the document an (empty) numbering part, registers its content type once and appends exactly one
+// relationship to it (fresh id, never "rId1"); every other part, override and relationship stays. If the serialiser
+// reports an error nothing has changed.
+//@ func (*Document).initializeNumbering
+//@ props C13, C02
+//@ requires docParts(d)
+//@ ensures d.parts == old(d.parts) && d.contentTypes == old(d.contentTypes) && d.documentRelationships == old(d.documentRelationships)
+//@ ensures marshalCount() == old(marshalCount()) || marshalCount() == old(marshalCount()) + 1
+//@ ensures marshalCount() == old(marshalCount()) ==> unchangedHeap()
+//@ ensures marshalCount() == old(marshalCount()) + 1 ==> has(d.parts, "word/numbering.xml") && ctHas(d.contentTypes.Overrides, "/" + "word/numbering.xml")
+//@ ensures forall k string :: k != "word/numbering.xml" ==> has(d.parts, k) == old(has(d.parts, k)) && d.parts[k] == old(d.parts[k])
+//@ ensures marshalCount() == old(marshalCount()) + 1 ==> len(d.documentRelationships.Relationships) == old(len(d.documentRelationships.Relationships)) + 1 && d.documentRelationships.Relationships[old(len(d.documentRelationships.Relationships))].Type == "http://schemas.openxmlformats.org/officeDocument/2006/relationships/numbering" && d.documentRelationships.Relationships[old(len(d.documentRelationships.Relationships))].Target == "numbering.xml" && d.documentRelationships.Relationships[old(len(d.documentRelationships.Relationships))].ID != "rId1"
+//@ ensures marshalCount() == old(marshalCount()) + 1 ==> forall j int :: 0 <= j && j < old(len(d.documentRelationships.Relationships)) ==> old(d.documentRelationships.Relationships[j].ID) != d.documentRelationships.Relationships[old(len(d.documentRelationships.Relationships))].ID
+//@ ensures forall j int :: 0 <= j && j < old(len(d.documentRelationships.Relationships)) ==> d.documentRelationships.Relationships[j] == old(d.documentRelationships.Relationships[j])
+//@ ensures old(relIDsUnique(d.documentRelationships.Relationships)) ==> relIDsUnique(d.documentRelationships.Relationships)
+//@ ensures forall j int :: 0 <= j && j < old(len(d.contentTypes.Overrides)) ==> d.contentTypes.Overrides[j] == old(d.contentTypes.Overrides[j])
+//@ ensures unchangedExcept("map:string:[]byte", "ContentTypes.Overrides", "Override.*", "Relationships.Relationships", "Relationship.*")
+
+// ensureNumberingInitialized: a document that has a numbering part is left alone; one without gets it as above.
+//@ func (*Document).ensureNumberingInitialized
+//@ props C13, C02
+//@ requires docParts(d)
+//@ ensures d.parts == old(d.parts) && d.contentTypes == old(d.contentTypes) && d.documentRelationships == old(d.documentRelationships)
+//@ ensures old(has(d.parts, "word/numbering.xml")) ==> unchangedHeap() && marshalCount() == old(marshalCount())
+//@ ensures marshalCount() == old(marshalCount()) || marshalCount() == old(marshalCount()) + 1
+//@ ensures marshalCount() == old(marshalCount()) ==> unchangedHeap()
+//@ ensures marshalCount() == old(marshalCount()) + 1 ==> has(d.parts, "word/numbering.xml") && ctHas(d.contentTypes.Overrides, "/" + "word/numbering.xml")
+//@ ensures forall k string :: k != "word/numbering.xml" ==> has(d.parts, k) == old(has(d.parts, k)) && d.parts[k] == old(d.parts[k])
+//@ ensures marshalCount() == old(marshalCount()) + 1 ==> len(d.documentRelationships.Relationships) == old(len(d.documentRelationships.Relationships)) + 1 && d.documentRelationships.Relationships[old(len(d.documentRelationships.Relationships))].Type == "http://schemas.openxmlformats.org/officeDocument/2006/relationships/numbering" && d.documentRelationships.Relationships[old(len(d.documentRelationships.Relationships))].Target == "numbering.xml" && d.documentRelationships.Relationships[old(len(d.documentRelationships.Relationships))].ID != "rId1"
+//@ ensures marshalCount() == old(marshalCount()) + 1 ==> forall j int :: 0 <= j && j < old(len(d.documentRelationships.Relationships)) ==> old(d.documentRelationships.Relationships[j].ID) != d.documentRelationships.Relationships[old(len(d.documentRelationships.Relationships))].ID
+//@ ensures marshalCount() == old(marshalCount()) ==> len(d.documentRelationships.Relationships) == old(len(d.documentRelationships.Relationships))
+//@ ensures forall j int :: 0 <= j && j < old(len(d.documentRelationships.Relationships)) ==> d.documentRelationships.Relationships[j] == old(d.documentRelationships.Relationships[j])
+//@ ensures old(relIDsUnique(d.documentRelationships.Relationships)) ==> relIDsUnique(d.documentRelationships.Relationships)
+//@ ensures forall j int :: 0 <= j && j < old(len(d.contentTypes.Overrides)) ==> d.contentTypes.Overrides[j] == old(d.contentTypes.Overrides[j])
+//@ ensures unchangedExcept("map:string:[]byte", "ContentTypes.Overrides", "Override.*", "Relationships.Relationships", "Relationship.*")
+
+// ---- find or create the definition of a request, create the instance ------------------------------------------------
+
+// numKeyIs(k, c): k is the cache key of the request c (all four request fields).
+//@ spec numKeyIs(k abstractNumKey, c *ListConfig) bool = k.Type == c.Type && k.BulletSymbol == c.BulletSymbol && k.IndentLevel == c.IndentLevel && k.StartNumber == c.StartNumber
+// registry lookups that are total on documents without a registry
+//@ spec numHasInst(d *Document, id string) bool = d.numberingManager != nil && has(d.numberingManager.numInstances, id)
+//@ spec numHasAbs(d *Document, k abstractNumKey) bool = d.numberingManager != nil && has(d.numberingManager.abstractNums, k)
+//@ spec numNextNum(d *Document) int = ite(d.numberingManager == nil, 1, d.numberingManager.nextNumID)
+//@ spec numNextAbs(d *Document) int = ite(d.numberingManager == nil, 0, d.numberingManager.nextAbstractNumID)
+
+// getOrCreateNumbering(config): the registry (created when the document has none) gets exactly one new instance, under an
+// id no instance had; the instance names the cached definition of the request, which is the cached one if the request
+// (type, symbol, level, start) was made before, and otherwise a fresh definition under an id no definition has
+// (numRegOK: ids are pairwise distinct) built for exactly this request. Every other instance and every other cached
+// definition keeps its key and its value; no existing definition object is written. The numbering part is regenerated
+// from the registry (see updateNumberingFile).
+//@ func (*Document).getOrCreateNumbering
+//@ props C15, C13
+//@ requires d != nil && d.parts != nil && config != nil && numDocOK(d)
+//@ ensures d.numberingManager != nil && numRegOK(d.numberingManager) && d.parts == old(d.parts)
+//@ ensures old(d.numberingManager) != nil ==> d.numberingManager == old(d.numberingManager)
+//@ ensures result == itoa(old(numNextNum(d))) && d.numberingManager.nextNumID == old(numNextNum(d)) + 1
+//@ ensures has(d.numberingManager.numInstances, result) && !old(numHasInst(d, result)) && fresh(d.numberingManager.numInstances[result])
+//@ ensures forall k abstractNumKey :: numKeyIs(k, config) ==> has(d.numberingManager.abstractNums, k) && d.numberingManager.numInstances[result].AbstractNumID.Val == d.numberingManager.abstractNums[k].AbstractNumID
+//@ ensures forall id string :: id != result ==> has(d.numberingManager.numInstances, id) == old(numHasInst(d, id)) && (old(numHasInst(d, id)) ==> d.numberingManager.numInstances[id] == old(d.numberingManager.numInstances[id]))
+//@ ensures forall k abstractNumKey :: old(numHasAbs(d, k)) ==> has(d.numberingManager.abstractNums, k) && d.numberingManager.abstractNums[k] == old(d.numberingManager.abstractNums[k])
+//@ ensures forall k abstractNumKey :: !numKeyIs(k, config) ==> has(d.numberingManager.abstractNums, k) == old(numHasAbs(d, k))
+//@ ensures forall k abstractNumKey :: numKeyIs(k, config) && !old(numHasAbs(d, k)) ==> fresh(d.numberingManager.abstractNums[k]) && d.numberingManager.abstractNums[k].AbstractNumID == itoa(old(numNextAbs(d))) && d.numberingManager.nextAbstractNumID == old(numNextAbs(d)) + 1
+//@ ensures marshalCount() == old(marshalCount()) || marshalCount() == old(marshalCount()) + 1
+//@ ensures marshalCount() == old(marshalCount()) + 1 ==> typeIs(marshalAt(old(marshalCount())), "*Numbering") && fresh(marshalAt(old(marshalCount())).(*Numbering)) && numAbsListed(marshalAt(old(marshalCount())).(*Numbering).AbstractNums, d.numberingManager) && numInstListed(marshalAt(old(marshalCount())).(*Numbering).NumberingInstances, d.numberingManager)
+//@ ensures marshalCount() == old(marshalCount()) + 1 ==> has(d.parts, "word/numbering.xml") && len(d.parts["word/numbering.xml"]) >= len(marshalOut(old(marshalCount()))) && (forall i int :: 0 <= i && i < len(marshalOut(old(marshalCount()))) ==> d.parts["word/numbering.xml"][len(d.parts["word/numbering.xml"]) - len(marshalOut(old(marshalCount()))) + i] == marshalOut(old(marshalCount()))[i])
+//@ ensures marshalCount() == old(marshalCount()) ==> has(d.parts, "word/numbering.xml") == old(has(d.parts, "word/numbering.xml")) && d.parts["word/numbering.xml"] == old(d.parts["word/numbering.xml"])
+//@ ensures forall k string :: k != "word/numbering.xml" ==> has(d.parts, k) == old(has(d.parts, k)) && d.parts[k] == old(d.parts[k])
+//@ ensures unchangedExcept("Document.numberingManager", "NumberingManager.nextAbstractNumID", "NumberingManager.nextNumID", "map:abstractNumKey:*AbstractNum", "map:string:*NumInstance", "map:string:[]byte")
+
+// ---- list items ------------------------------------------------------------------------------------------------
+
+// The request of a call: a nil config is the documented default (bullet list, dot, level 0); a level outside 0-8 is moved to
+// the nearest level the format has (AddListItem warns about it).
+//@ spec numCfgType(c *ListConfig) ListType = ite(c == nil, ListTypeBullet, c.Type)
+//@ spec numCfgSym(c *ListConfig) BulletType = ite(c == nil, BulletTypeDot, c.BulletSymbol)
+//@ spec numCfgStart(c *ListConfig) int = ite(c == nil, 0, c.StartNumber)
+//@ spec numLvl(l int) int = ite(l < 0, 0, ite(l > 8, 8, l))
+//@ spec numCfgLevel(c *ListConfig) int = ite(c == nil, 0, numLvl(c.IndentLevel))
+
+// numHasNumPr(p): p is a list paragraph (it carries a numbering id).
+//@ spec numHasNumPr(p *Paragraph) bool = p != nil && p.Properties != nil && p.Properties.NumberingProperties != nil && p.Properties.NumberingProperties.NumID != nil
+// numItemOK(d, p, t, s, l, n): p is a list item at level l whose numbering id is an instance of d's registry, the instance
+// names a cached definition of the registry, and that definition's entry for level l has the number format and level text
+// (bullet symbol) of type t / symbol s and the start value n.
+//@ spec numItemOK(d *Document, p *Paragraph, t ListType, s BulletType, l int, n int) bool = numHasNumPr(p) && p.Properties.NumberingProperties.ILevel != nil && p.Properties.NumberingProperties.ILevel.Val == itoa(l) && numHasInst(d, p.Properties.NumberingProperties.NumID.Val) && (exists k abstractNumKey :: has(d.numberingManager.abstractNums, k) && d.numberingManager.abstractNums[k].AbstractNumID == d.numberingManager.numInstances[p.Properties.NumberingProperties.NumID.Val].AbstractNumID.Val && 0 <= l && l < len(d.numberingManager.abstractNums[k].Levels) && numLevelOK(d.numberingManager.abstractNums[k].Levels[l], l, t, s, n))
+// numItemKeyed(d, p, t, s, l, n): the same, naming the definition through the cache: the definition cached for the request
+// (t, s, l, n) exists, is the one p's instance names, and its entry for level l is as requested. (A key with these four
+// fields always exists, so this implies numItemOK; it has no existential, which callers that add further items need.)
+//@ spec numItemKeyed(d *Document, p *Paragraph, t ListType, s BulletType, l int, n int) bool = numHasNumPr(p) && p.Properties.NumberingProperties.ILevel != nil && p.Properties.NumberingProperties.ILevel.Val == itoa(l) && numHasInst(d, p.Properties.NumberingProperties.NumID.Val) && 0 <= l && l <= 8 && (forall k abstractNumKey :: {has(d.numberingManager.abstractNums, k)} k.Type == t && k.BulletSymbol == s && k.IndentLevel == l && k.StartNumber == n ==> has(d.numberingManager.abstractNums, k) && d.numberingManager.abstractNums[k].AbstractNumID == d.numberingManager.numInstances[p.Properties.NumberingProperties.NumID.Val].AbstractNumID.Val && l < len(d.numberingManager.abstractNums[k].Levels) && numLevelOK(d.numberingManager.abstractNums[k].Levels[l], l, t, s, n))
+// numRefsOK(d): every list paragraph of the body refers to an instance of the registry (C13: together with numRegOK -
+// every instance names a cached definition - and the numbering part being the marshalled registry, every numbering id
+// the body uses is defined in the numbering part together with its abstract definition).
+//@ spec numRefsOK(d *Document) bool = forall j int :: {d.Body.Elements[j]} 0 <= j && j < len(d.Body.Elements) && isPara(d.Body.Elements[j]) && numHasNumPr(d.Body.Elements[j].(*Paragraph)) ==> numHasInst(d, d.Body.Elements[j].(*Paragraph).Properties.NumberingProperties.NumID.Val)
+
+// AddListItem(text, config):
+//  1. the returned paragraph is a list item at the requested level (0-8; outside: the nearest one) whose numbering id is a
+//     NEW instance of the registry; the instance names a cached definition whose entry for that level has exactly the number
+//     format, level text (bullet symbol) and start value of the request;
+//  2. the new instance's id was not in use; every other instance and every cached definition keeps its key and value, no
+//     existing definition is written, the registry invariant holds (ids pairwise distinct, every instance names a definition);
+//  3. the paragraph is the new last element of the body, every earlier element stays in place; it has one run with the
+//     text (none for an empty text);
+//  4. a document without numbering part gets one (content type, one relationship with a fresh id); if every serialiser call
+//     succeeded, the numbering part ends with the bytes returned for a value that lists every definition and every instance
+//     of the registry, each once; every other part stays;
+//  5. no panic for any config (nil included), level, text or document.
+//@ func (*Document).AddListItem
+//@ props C15, C13
+//@ requires docParts(d) && elemsOK(d.Body.Elements) && numDocOK(d)
+//@ ensures fresh(result) && numItemOK(d, result, numCfgType(config), numCfgSym(config), numCfgLevel(config), numCfgStart(config))
+//@ ensures numItemKeyed(d, result, numCfgType(config), numCfgSym(config), numCfgLevel(config), numCfgStart(config))
+//@ ensures text == "" ==> len(result.Runs) == 0
+//@ ensures text != "" ==> len(result.Runs) == 1 && result.Runs[0].Text.Content == text
+//@ ensures d.numberingManager != nil && numRegOK(d.numberingManager) && (old(d.numberingManager) != nil ==> d.numberingManager == old(d.numberingManager))
+//@ ensures result.Properties.NumberingProperties.NumID.Val == itoa(old(numNextNum(d))) && !old(numHasInst(d, itoa(numNextNum(d))))
+//@ ensures forall id string :: id != result.Properties.NumberingProperties.NumID.Val ==> has(d.numberingManager.numInstances, id) == old(numHasInst(d, id)) && (old(numHasInst(d, id)) ==> d.numberingManager.numInstances[id] == old(d.numberingManager.numInstances[id]))
+//@ ensures forall k abstractNumKey :: old(numHasAbs(d, k)) ==> has(d.numberingManager.abstractNums, k) && d.numberingManager.abstractNums[k] == old(d.numberingManager.abstractNums[k])
+//@ ensures forall k abstractNumKey :: !(k.Type == numCfgType(config) && k.BulletSymbol == numCfgSym(config) && k.IndentLevel == numCfgLevel(config) && k.StartNumber == numCfgStart(config)) ==> has(d.numberingManager.abstractNums, k) == old(numHasAbs(d, k))
+//@ ensures d.Body == old(d.Body) && len(d.Body.Elements) == old(len(d.Body.Elements)) + 1
+//@ ensures elemsOK(d.Body.Elements)
+//@ ensures typeIs(d.Body.Elements[old(len(d.Body.Elements))], "*Paragraph") && d.Body.Elements[old(len(d.Body.Elements))].(*Paragraph) == result
+//@ ensures forall j int :: 0 <= j && j < old(len(d.Body.Elements)) ==> d.Body.Elements[j] == old(d.Body.Elements[j])
+//@ ensures old(numRefsOK(d)) ==> numRefsOK(d)
+//@ ensures d.parts == old(d.parts) && d.contentTypes == old(d.contentTypes) && d.documentRelationships == old(d.documentRelationships)
+//@ ensures forall k string :: k != "word/numbering.xml" ==> has(d.parts, k) == old(has(d.parts, k)) && d.parts[k] == old(d.parts[k])
+//@ ensures marshalCount() == old(marshalCount()) + ite(old(has(d.parts, "word/numbering.xml")), 1, 2) ==> typeIs(marshalAt(marshalCount() - 1), "*Numbering") && fresh(marshalAt(marshalCount() - 1).(*Numbering)) && numAbsListed(marshalAt(marshalCount() - 1).(*Numbering).AbstractNums, d.numberingManager) && numInstListed(marshalAt(marshalCount() - 1).(*Numbering).NumberingInstances, d.numberingManager)
+//@ ensures marshalCount() == old(marshalCount()) + ite(old(has(d.parts, "word/numbering.xml")), 1, 2) ==> has(d.parts, "word/numbering.xml") && len(d.parts["word/numbering.xml"]) >= len(marshalOut(marshalCount() - 1)) && (forall i int :: 0 <= i && i < len(marshalOut(marshalCount() - 1)) ==> d.parts["word/numbering.xml"][len(d.parts["word/numbering.xml"]) - len(marshalOut(marshalCount() - 1)) + i] == marshalOut(marshalCount() - 1)[i])
+//@ ensures old(has(d.parts, "word/numbering.xml")) ==> len(d.documentRelationships.Relationships) == old(len(d.documentRelationships.Relationships)) && len(d.contentTypes.Overrides) == old(len(d.contentTypes.Overrides))
+//@ ensures !old(has(d.parts, "word/numbering.xml")) && marshalCount() == old(marshalCount()) + 2 ==> ctHas(d.contentTypes.Overrides, "/" + "word/numbering.xml") && len(d.documentRelationships.Relationships) == old(len(d.documentRelationships.Relationships)) + 1 && d.documentRelationships.Relationships[old(len(d.documentRelationships.Relationships))].Type == "http://schemas.openxmlformats.org/officeDocument/2006/relationships/numbering" && d.documentRelationships.Relationships[old(len(d.documentRelationships.Relationships))].Target == "numbering.xml" && d.documentRelationships.Relationships[old(len(d.documentRelationships.Relationships))].ID != "rId1"
+//@ ensures !old(has(d.parts, "word/numbering.xml")) && marshalCount() == old(marshalCount()) + 2 ==> forall j int :: 0 <= j && j < old(len(d.documentRelationships.Relationships)) ==> old(d.documentRelationships.Relationships[j].ID) != d.documentRelationships.Relationships[old(len(d.documentRelationships.Relationships))].ID
+//@ ensures forall j int :: 0 <= j && j < old(len(d.documentRelationships.Relationships)) ==> d.documentRelationships.Relationships[j] == old(d.documentRelationships.Relationships[j])
+//@ ensures old(relIDsUnique(d.documentRelationships.Relationships)) ==> relIDsUnique(d.documentRelationships.Relationships)
+//@ ensures forall j int :: 0 <= j && j < old(len(d.contentTypes.Overrides)) ==> d.contentTypes.Overrides[j] == old(d.contentTypes.Overrides[j])
+//@ ensures unchangedExcept("Document.numberingManager", "NumberingManager.nextAbstractNumID", "NumberingManager.nextNumID", "map:abstractNumKey:*AbstractNum", "map:string:*NumInstance", "map:string:[]byte", "ContentTypes.Overrides", "Override.*", "Relationships.Relationships", "Relationship.*", "Body.Elements", "cell:any")
+
+// AddBulletList(text, level, bulletType) is AddListItem for a bullet list with that symbol: the item's definition has, at the
+// item's level, the format "bullet" and the symbol as level text.
+//@ func (*Document).AddBulletList
+//@ props C15, C13
+//@ requires docParts(d) && elemsOK(d.Body.Elements) && numDocOK(d)
+//@ ensures fresh(result) && numItemOK(d, result, ListTypeBullet, bulletType, numLvl(level), 0)
+//@ ensures numItemKeyed(d, result, ListTypeBullet, bulletType, numLvl(level), 0)
+//@ ensures text == "" ==> len(result.Runs) == 0
+//@ ensures text != "" ==> len(result.Runs) == 1 && result.Runs[0].Text.Content == text
+//@ ensures d.numberingManager != nil && numRegOK(d.numberingManager) && (old(d.numberingManager) != nil ==> d.numberingManager == old(d.numberingManager))
+//@ ensures result.Properties.NumberingProperties.NumID.Val == itoa(old(numNextNum(d))) && !old(numHasInst(d, itoa(numNextNum(d))))
+//@ ensures forall id string :: id != result.Properties.NumberingProperties.NumID.Val ==> has(d.numberingManager.numInstances, id) == old(numHasInst(d, id)) && (old(numHasInst(d, id)) ==> d.numberingManager.numInstances[id] == old(d.numberingManager.numInstances[id]))
+//@ ensures forall k abstractNumKey :: old(numHasAbs(d, k)) ==> has(d.numberingManager.abstractNums, k) && d.numberingManager.abstractNums[k] == old(d.numberingManager.abstractNums[k])
+//@ ensures d.Body == old(d.Body) && len(d.Body.Elements) == old(len(d.Body.Elements)) + 1
+//@ ensures elemsOK(d.Body.Elements)
+//@ ensures typeIs(d.Body.Elements[old(len(d.Body.Elements))], "*Paragraph") && d.Body.Elements[old(len(d.Body.Elements))].(*Paragraph) == result
+//@ ensures forall j int :: 0 <= j && j < old(len(d.Body.Elements)) ==> d.Body.Elements[j] == old(d.Body.Elements[j])
+//@ ensures old(numRefsOK(d)) ==> numRefsOK(d)
+//@ ensures forall k string :: k != "word/numbering.xml" ==> has(d.parts, k) == old(has(d.parts, k)) && d.parts[k] == old(d.parts[k])
+//@ ensures unchangedExcept("Document.numberingManager", "NumberingManager.nextAbstractNumID", "NumberingManager.nextNumID", "map:abstractNumKey:*AbstractNum", "map:string:*NumInstance", "map:string:[]byte", "ContentTypes.Overrides", "Override.*", "Relationships.Relationships", "Relationship.*", "Body.Elements", "cell:any")
+
+// AddNumberedList(text, level, numType) is AddListItem for a list of that type starting at 1: the item's definition has, at
+// the item's level, the number format of the type, the level text "%<level+1>." and the start value 1.
+//@ func (*Document).AddNumberedList
+//@ props C15, C13
+//@ requires docParts(d) && elemsOK(d.Body.Elements) && numDocOK(d)
+//@ ensures fresh(result) && numItemOK(d, result, numType, "", numLvl(level), 1)
+//@ ensures numItemKeyed(d, result, numType, "", numLvl(level), 1)
+//@ ensures text == "" ==> len(result.Runs) == 0
+//@ ensures text != "" ==> len(result.Runs) == 1 && result.Runs[0].Text.Content == text
+//@ ensures d.numberingManager != nil && numRegOK(d.numberingManager) && (old(d.numberingManager) != nil ==> d.numberingManager == old(d.numberingManager))
+//@ ensures result.Properties.NumberingProperties.NumID.Val == itoa(old(numNextNum(d))) && !old(numHasInst(d, itoa(numNextNum(d))))
+//@ ensures forall id string :: id != result.Properties.NumberingProperties.NumID.Val ==> has(d.numberingManager.numInstances, id) == old(numHasInst(d, id)) && (old(numHasInst(d, id)) ==> d.numberingManager.numInstances[id] == old(d.numberingManager.numInstances[id]))
+//@ ensures forall k abstractNumKey :: old(numHasAbs(d, k)) ==> has(d.numberingManager.abstractNums, k) && d.numberingManager.abstractNums[k] == old(d.numberingManager.abstractNums[k])
+//@ ensures d.Body == old(d.Body) && len(d.Body.Elements) == old(len(d.Body.Elements)) + 1
+//@ ensures elemsOK(d.Body.Elements)
+//@ ensures typeIs(d.Body.Elements[old(len(d.Body.Elements))], "*Paragraph") && d.Body.Elements[old(len(d.Body.Elements))].(*Paragraph) == result
+//@ ensures forall j int :: 0 <= j && j < old(len(d.Body.Elements)) ==> d.Body.Elements[j] == old(d.Body.Elements[j])
+//@ ensures old(numRefsOK(d)) ==> numRefsOK(d)
+//@ ensures forall k string :: k != "word/numbering.xml" ==> has(d.parts, k) == old(has(d.parts, k)) && d.parts[k] == old(d.parts[k])
+//@ ensures unchangedExcept("Document.numberingManager", "NumberingManager.nextAbstractNumID", "NumberingManager.nextNumID", "map:abstractNumKey:*AbstractNum", "map:string:*NumInstance", "map:string:[]byte", "ContentTypes.Overrides", "Override.*", "Relationships.Relationships", "Relationship.*", "Body.Elements", "cell:any")
+
+// RestartNumbering(numID): if numID is an instance of the registry, the registry gets exactly one new instance, under an id
+// no instance had, naming the same definition; the numbering part is regenerated. For an unknown id no instance is added and
+// nothing is written (only the id counter moves on). Either way every existing instance and every cached definition keeps
+// its key and value, the body is untouched and the registry invariant holds.
+//@ func (*Document).RestartNumbering
+//@ props C15, C13
+//@ requires d != nil && d.parts != nil && numDocOK(d)
+//@ ensures d.numberingManager != nil && numRegOK(d.numberingManager) && (old(d.numberingManager) != nil ==> d.numberingManager == old(d.numberingManager)) && d.parts == old(d.parts)
+//@ ensures d.numberingManager.nextNumID == old(numNextNum(d)) + 1 && !old(numHasInst(d, itoa(numNextNum(d))))
+//@ ensures old(numHasInst(d, numID)) ==> has(d.numberingManager.numInstances, itoa(old(numNextNum(d)))) && fresh(d.numberingManager.numInstances[itoa(old(numNextNum(d)))]) && d.numberingManager.numInstances[itoa(old(numNextNum(d)))].AbstractNumID.Val == old(d.numberingManager.numInstances[numID].AbstractNumID.Val)
+//@ ensures !old(numHasInst(d, numID)) ==> !has(d.numberingManager.numInstances, itoa(old(numNextNum(d)))) && marshalCount() == old(marshalCount())
+//@ ensures forall id string :: id != itoa(old(numNextNum(d))) ==> has(d.numberingManager.numInstances, id) == old(numHasInst(d, id)) && (old(numHasInst(d, id)) ==> d.numberingManager.numInstances[id] == old(d.numberingManager.numInstances[id]))
+//@ ensures forall k abstractNumKey :: has(d.numberingManager.abstractNums, k) == old(numHasAbs(d, k)) && (old(numHasAbs(d, k)) ==> d.numberingManager.abstractNums[k] == old(d.numberingManager.abstractNums[k]))
+//@ ensures marshalCount() == old(marshalCount()) || marshalCount() == old(marshalCount()) + 1
+//@ ensures marshalCount() == old(marshalCount()) + 1 ==> typeIs(marshalAt(old(marshalCount())), "*Numbering") && fresh(marshalAt(old(marshalCount())).(*Numbering)) && numAbsListed(marshalAt(old(marshalCount())).(*Numbering).AbstractNums, d.numberingManager) && numInstListed(marshalAt(old(marshalCount())).(*Numbering).NumberingInstances, d.numberingManager)
+//@ ensures marshalCount() == old(marshalCount()) + 1 ==> has(d.parts, "word/numbering.xml") && len(d.parts["word/numbering.xml"]) >= len(marshalOut(old(marshalCount()))) && (forall i int :: 0 <= i && i < len(marshalOut(old(marshalCount()))) ==> d.parts["word/numbering.xml"][len(d.parts["word/numbering.xml"]) - len(marshalOut(old(marshalCount()))) + i] == marshalOut(old(marshalCount()))[i])
+//@ ensures marshalCount() == old(marshalCount()) ==> has(d.parts, "word/numbering.xml") == old(has(d.parts, "word/numbering.xml")) && d.parts["word/numbering.xml"] == old(d.parts["word/numbering.xml"])
+//@ ensures forall k string :: k != "word/numbering.xml" ==> has(d.parts, k) == old(has(d.parts, k)) && d.parts[k] == old(d.parts[k])
+//@ ensures unchangedExcept("Document.numberingManager", "NumberingManager.nextNumID", "map:string:*NumInstance", "map:string:[]byte")
+
+// CreateMultiLevelList(items) appends one list item per entry, in order: the body grows by len(items) paragraphs, the j-th
+// new paragraph is a list item for items[j] (type, symbol, level 0-8 or the nearest one, start value) resolving in the
+// registry as in AddListItem; every earlier body element stays in place; every instance and cached definition the
+// registry had is still there with the same value; the call never fails.
+//@ func (*Document).CreateMultiLevelList
+//@ props C15, C13
+//@ requires docParts(d) && elemsOK(d.Body.Elements) && numDocOK(d)
+//@ ensures err == nil
+//@ ensures d.Body == old(d.Body) && len(d.Body.Elements) == old(len(d.Body.Elements)) + len(items) && elemsOK(d.Body.Elements)
+//@ ensures forall j int :: 0 <= j && j < old(len(d.Body.Elements)) ==> d.Body.Elements[j] == old(d.Body.Elements[j])
+//@ ensures forall j int :: {items[j]} 0 <= j && j < len(items) ==> isPara(d.Body.Elements[old(len(d.Body.Elements)) + j]) && numItemKeyed(d, d.Body.Elements[old(len(d.Body.Elements)) + j].(*Paragraph), items[j].Type, items[j].BulletSymbol, numLvl(items[j].Level), items[j].StartNumber)
+//@ ensures numDocOK(d) && (len(items) > 0 ==> d.numberingManager != nil) && (old(d.numberingManager) != nil ==> d.numberingManager == old(d.numberingManager))
+//@ ensures forall id string :: old(numHasInst(d, id)) ==> numHasInst(d, id) && d.numberingManager.numInstances[id] == old(d.numberingManager.numInstances[id])
+//@ ensures forall k abstractNumKey :: old(numHasAbs(d, k)) ==> numHasAbs(d, k) && d.numberingManager.abstractNums[k] == old(d.numberingManager.abstractNums[k])
+//@ ensures old(numRefsOK(d)) ==> numRefsOK(d)
+//@ ensures forall k string :: k != "word/numbering.xml" ==> has(d.parts, k) == old(has(d.parts, k)) && d.parts[k] == old(d.parts[k])
+//@ ensures unchangedExcept("Document.numberingManager", "NumberingManager.nextAbstractNumID", "NumberingManager.nextNumID", "map:abstractNumKey:*AbstractNum", "map:string:*NumInstance", "map:string:[]byte", "ContentTypes.Overrides", "Override.*", "Relationships.Relationships", "Relationship.*", "Body.Elements", "cell:any")
+//@ loop 1
+//@   invariant 0 <= #i && #i <= len(items) && docParts(d) && d.Body == old(d.Body) && d.parts == old(d.parts) && numDocOK(d) && (#i > 0 ==> d.numberingManager != nil) && (old(d.numberingManager) != nil ==> d.numberingManager == old(d.numberingManager))
+//@   invariant len(d.Body.Elements) == old(len(d.Body.Elements)) + #i && elemsOK(d.Body.Elements)
+//@   invariant forall j int :: 0 <= j && j < old(len(d.Body.Elements)) ==> d.Body.Elements[j] == old(d.Body.Elements[j])
+//@   invariant forall j int :: {items[j]} 0 <= j && j < #i ==> isPara(d.Body.Elements[old(len(d.Body.Elements)) + j]) && numItemKeyed(d, d.Body.Elements[old(len(d.Body.Elements)) + j].(*Paragraph), items[j].Type, items[j].BulletSymbol, numLvl(items[j].Level), items[j].StartNumber)
+//@   invariant forall id string :: old(numHasInst(d, id)) ==> numHasInst(d, id) && d.numberingManager.numInstances[id] == old(d.numberingManager.numInstances[id])
+//@   invariant forall k abstractNumKey :: old(numHasAbs(d, k)) ==> numHasAbs(d, k) && d.numberingManager.abstractNums[k] == old(d.numberingManager.abstractNums[k])
+//@   invariant old(numRefsOK(d)) ==> numRefsOK(d)
+//@   invariant forall k string :: k != "word/numbering.xml" ==> has(d.parts, k) == old(has(d.parts, k)) && d.parts[k] == old(d.parts[k])
+//@   invariant unchangedExcept("Document.numberingManager", "NumberingManager.nextAbstractNumID", "NumberingManager.nextNumID", "map:abstractNumKey:*AbstractNum", "map:string:*NumInstance", "map:string:[]byte", "ContentTypes.Overrides", "Override.*", "Relationships.Relationships", "Relationship.*", "Body.Elements", "cell:any")
+//@   decreases len(items) - #i
